@@ -1,4 +1,6 @@
 """C15 Variable scoping is lexical and unaffected by evaluation order (structural core)."""
+import re
+
 from sa import rules as R
 from sa.prog import P, Callee, op_place
 
@@ -320,7 +322,7 @@ def parallel_assignment(prog, chk):
         f"an evaluation can run after an assignment of the same <var> (set_var at {[ve.where(b) for b, _ in bad]} reaches eval_attr) - assignment is no longer simultaneous",
     )
     # set_var is the only way VarElement stores, and who else calls set_var
-    callers = sorted(x.path for x in prog.callers_of(prog.body(SETVAR)))
+    callers = sorted({re.sub(r"(::\{closure#\d+\})+", "", x.path) for x in prog.callers_of(prog.body(SETVAR))})
     expected = sorted(
         [
             "<svgdx::transform::VarElement as svgdx::transform::EventGen>::generate_events",
